@@ -79,7 +79,7 @@ def shotVerdict (scName : String) (expected : List String) (evs : List OEv) : St
   let samples := evs.filterMap fun | .sample t f => some (t, f) | _ => none
   let reqs := evs.filterMap fun | .req n => some n | _ => none
   match evs.find? (fun | .viol _ => true | _ => false) with
-  | some (.viol w) => s!"fail:pause:{w}"
+  | some (.viol w) => if w.startsWith "panic" then s!"fail:crash:{w}" else s!"fail:pause:{w}"
   | _ =>
   -- order: the i-th reported sample belongs to the i-th listed step
   let tagsOK := (samples.zip expected).all fun ((t, f), n) =>
